@@ -122,7 +122,8 @@ def build2(m):
     m.predicate('STACK_OK', ['ds', 'string'],
                 "forall(lambda i: DELIM_OK(ds[i]) and ds[i].end <= len(string) and "
                 "field(ds[i], '__has_open') == field(ds[i], '__has_close'), 0, len(ds)) and "
-                "forall(lambda i, j: implies(i < j, ds[i] != ds[j]), 0, len(ds), 0, len(ds))")
+                # stack entries are in source order and do not overlap (hence pairwise different objects)
+                "forall(lambda i, j: implies(i < j, ds[i].end <= ds[j].start), 0, len(ds), 0, len(ds))")
     m.predicate('CLOSER_AT', ['ds', 'p'], "EMPH(ds[p]) and ds[p].close")
     m.add(Contract(MOD + ':next_closer', [('curr_pos', TOpt(INT)), ('delimiters', TList(DL))], returns=TOpt(INT), pure=True,
                    requires=['is_none(curr_pos) or (0 <= some(curr_pos) and some(curr_pos) <= len(delimiters))',
